@@ -52,6 +52,8 @@ func c09(tier string) []*explore.Scenario {
 	out = append(out, withHistory(historyKinds(tier), c09One("1u1s", 1, false, 64, 1), c09One("2u", 1, true, 64, 1), c09One("1s", 2, false, 0, 1), c09One("1s", 0, false, 64, 1), c09One("1u1s", 0, true, 0, 1), c09Many(20, 4, false, 0))...)
 	out = append(out, withConfig(configKinds(tier), c09One("1u1s", 1, false, 64, 1), c09One("2u", 1, true, 64, 1), c09One("1s", 2, false, 0, 1), c09One("1s", 0, false, 64, 1), c09One("1u1s", 0, true, 0, 1), c09Many(20, 4, false, 0))...)
 	out = append(out, opInWriteAll("C09", 0)...)
+	// finer granularity (a scheduling point after every Unlock as well) on the small core scenarios
+	out = append(out, fineGrained(c09One("2u", 1, false, 64, 1), c09Many(3, 2, false, 1))...)
 	return out
 }
 
